@@ -335,9 +335,10 @@ result<bool> url_pattern<regex_provider>::test(
     }
   }
 
-  auto url =
-      ada::parse<url_aggregator>(std::get<std::string_view>(input),
-                                 base_url.has_value() ? &*base_url : nullptr);
+  // Note: a default-constructed result<url_aggregator> holds a value (an empty
+  // URL), so has_value() cannot tell whether a base URL was given.
+  auto url = ada::parse<url_aggregator>(std::get<std::string_view>(input),
+                                        base_url_string ? &*base_url : nullptr);
   if (!url) {
     return false;
   }
@@ -461,8 +462,9 @@ result<std::optional<url_pattern_result>> url_pattern<regex_provider>::match(
       inputs.emplace_back(*base_url_string);
     }
 
-    url_aggregator* base_url_value =
-        base_url.has_value() ? &*base_url : nullptr;
+    // Note: a default-constructed result<url_aggregator> holds a value (an
+    // empty URL), so has_value() cannot tell whether a base URL was given.
+    url_aggregator* base_url_value = base_url_string ? &*base_url : nullptr;
 
     // Set url to the result of parsing input given baseURL.
     auto url = ada::parse<url_aggregator>(std::get<std::string_view>(input),
